@@ -438,6 +438,30 @@ func (e *pathEnv) compute(v ssa.Value) *Path {
 			return &Path{Kind: "unop", Name: x.Op.String(), Args: []*Path{e.of(x.X)}}
 		}
 	case *ssa.BinOp:
+		// `for … range s` counts from -1 and tests/uses the incremented value; `for i := 0; …` counts
+		// from 0 and uses the counter itself. Both index element `iter`.
+		if x.Op == token.ADD {
+			if ph, ok := x.X.(*ssa.Phi); ok && isLoopPhi(ph) {
+				if c, ok := constInt(x.Y); ok && c == 1 {
+					cyc := cyclicEdges(ph)
+					rangeStyle := false
+					for i, ed := range ph.Edges {
+						if cyc[i] {
+							continue
+						}
+						if k, ok := constInt(ed); ok && k == -1 {
+							rangeStyle = true
+						} else {
+							rangeStyle = false
+							break
+						}
+					}
+					if rangeStyle {
+						return e.of(ph)
+					}
+				}
+			}
+		}
 		return &Path{Kind: "binop", Name: x.Op.String(), Args: []*Path{e.of(x.X), e.of(x.Y)}}
 	case *ssa.Call:
 		return e.callPath(&x.Call)
